@@ -139,8 +139,9 @@ func (x *sexp) intValue() (*big.Int, bool) {
 // ---- model access ----
 
 type modelQuery struct {
-	terms []string
-	index map[string]int
+	terms  []string
+	index  map[string]int
+	slices []string // every slice-valued term of the planned inputs (kept small when a model is asked for)
 }
 
 func (m *modelQuery) want(t string) {
@@ -233,6 +234,9 @@ func (v *vc) plan(mq *modelQuery, term string, t types.Type, pos, depth int) *rn
 		mq.want(fmt.Sprintf("(s_len %s)", term))
 		mq.want(fmt.Sprintf("(s_cap %s)", term))
 		mq.want(fmt.Sprintf("(s_arr %s)", term))
+		if depth > 0 {
+			mq.slices = append(mq.slices, term)
+		}
 		et := u.Elem()
 		k := replayElems
 		if _, isBasic := et.Underlying().(*types.Basic); !isBasic {
@@ -484,6 +488,9 @@ func (v *vc) replay(ob *obligation, work string, rep map[string]interface{}) (bo
 			}
 		}
 	}
+	for _, t := range mq.slices {
+		small = append(small, fmt.Sprintf("(assert (<= (s_cap %s) %d))", t, replayElems))
+	}
 	status, out := "", ""
 	var first []string
 	for _, fe := range v.firstIter {
@@ -588,11 +595,29 @@ func (v *vc) replay(ob *obligation, work string, rep map[string]interface{}) (bo
 	body.WriteString(setup.String())
 	// the concretised input must establish the contract's preconditions, otherwise a panic proves nothing
 	for _, r := range v.fc.requires {
-		ge, ok := v.specToGo(r.expr, pargsNames(fn.Params, argNames), nil)
-		if !ok {
+		g := v.newGoConv(pargsNames(fn.Params, argNames), nil)
+		ge := g.conv(r.expr, nil)
+		if !g.ok {
 			return false, fmt.Sprintf("precondition %s cannot be evaluated on the concretised input", r.label)
 		}
 		body.WriteString(fmt.Sprintf("\tif !(%s) { fmt.Println(\"GOVC-REPLAY-PRECONDITION-FALSE %s\"); return }\n", ge, r.label))
+	}
+	// the failed postcondition as Go (old(...) values are snapshotted before the call)
+	ensuresGo := ""
+	if ob.kind == "ensures" {
+		for _, e := range v.fc.ensures {
+			if e.label != ob.label {
+				continue
+			}
+			g := v.newGoConv(pargsNames(fn.Params, argNames), resNames)
+			ge := g.conv(e.expr, nil)
+			if g.ok {
+				ensuresGo = ge
+				for _, s := range g.pre {
+					body.WriteString("\t" + s + "\n")
+				}
+			}
+		}
 	}
 	if nres > 0 {
 		body.WriteString(fmt.Sprintf("\t%s := %s\n", strings.Join(resNames, ", "), call))
@@ -604,17 +629,9 @@ func (v *vc) replay(ob *obligation, work string, rep map[string]interface{}) (bo
 	}
 	body.WriteString("\tfmt.Println(\"GOVC-REPLAY-RETURNED\")\n")
 	ensuresChecked := false
-	if ob.kind == "ensures" {
-		for _, e := range v.fc.ensures {
-			if e.label != ob.label {
-				continue
-			}
-			ge, ok := v.specToGo(e.expr, pargsNames(fn.Params, argNames), resNames)
-			if ok {
-				body.WriteString(fmt.Sprintf("\tif !(%s) { fmt.Println(\"GOVC-REPLAY-ENSURES-FALSE\") }\n", ge))
-				ensuresChecked = true
-			}
-		}
+	if ensuresGo != "" {
+		body.WriteString(fmt.Sprintf("\tif !(%s) { fmt.Println(\"GOVC-REPLAY-ENSURES-FALSE\") }\n", ensuresGo))
+		ensuresChecked = true
 	}
 	pkgName := fn.Pkg.Pkg.Name()
 	src := fmt.Sprintf("package %s\n\nimport (\n\t\"bytes\"\n\t\"fmt\"\n\t\"testing\"\n)\n\nvar _ = bytes.NewReader\n\n// Replay of obligation %s\nfunc TestGovcReplay(t *testing.T) {\n\tdefer func() {\n\t\tif r := recover(); r != nil {\n\t\t\tfmt.Printf(\"GOVC-REPLAY-PANIC: %%v\\n\", r)\n\t\t}\n\t}()\n%s}\n", pkgName, ob.name, body.String())
